@@ -92,6 +92,32 @@ func get(h *health.Health) response {
 	return r
 }
 
+// getBoth asks twice: an ordinary request, and a request whose context is already done (a prober that hung up, a
+// deadline that passed while the handler waited for a lock). The answer describes the components, not the client:
+// a differing second answer is returned in place of the first, in a form that can never be consistent.
+func getBoth(h *health.Health) response {
+	r := get(h)
+	for _, mk := range []func() (context.Context, context.CancelFunc){
+		func() (context.Context, context.CancelFunc) {
+			c, f := context.WithCancel(context.Background())
+			f()
+			return c, f
+		},
+		func() (context.Context, context.CancelFunc) {
+			return context.WithDeadline(context.Background(), time.Unix(0, 0))
+		},
+	} {
+		ctx, cancel := mk()
+		rec := httptest.NewRecorder()
+		h.ReadyzHandler().ServeHTTP(rec, httptest.NewRequest("GET", "/readyz", nil).WithContext(ctx))
+		cancel()
+		if rec.Code != r.Code || strings.TrimSpace(rec.Body.String()) != r.Raw {
+			return response{Code: rec.Code, Raw: fmt.Sprintf("a request whose context is done (%v) was answered %d %q, an ordinary request %d %q", ctx.Err(), rec.Code, strings.TrimSpace(rec.Body.String()), r.Code, r.Raw)}
+		}
+	}
+	return r
+}
+
 // consistent checks the response against itself.
 func (r response) consistent() string {
 	if r.Body == nil {
@@ -220,7 +246,7 @@ func searchSequential(run *mc.Run, cov *mc.Coverage) {
 				for p := 0; p < nperm; p++ {
 					p := p
 					iterChoice = func(n int) int { return p % n }
-					r := get(hl)
+					r := getBoth(hl)
 					isReady := hl.IsReady()
 					iterChoice = nil
 					want := m.allReady(reg)
@@ -307,7 +333,7 @@ func (in *hinst) observe() string {
 			fmt.Fprintf(&b, "T%d get%d: %d %s\n", t, i, r.Code, r.Raw)
 		}
 	}
-	fin := get(in.h)
+	fin := getBoth(in.h)
 	fmt.Fprintf(&b, "final: %d %s\n", fin.Code, fin.Raw)
 	return b.String()
 }
@@ -616,13 +642,13 @@ func runC18(t *testing.T, run *mc.Run) int {
 			for _, o := range rp.History {
 				applyReal(hl, o)
 			}
-			r := get(hl)
+			r := getBoth(hl)
 			fmt.Println(r.Code, r.Raw)
 		}
 		return 0
 	}
 	cov := mc.Coverage{Level: "model_checking", Exhaustive: true, Extra: map[string]any{}}
-	cov.Rule = "(a) breadth-first search to closure over add/ready for 3 component names on the real Health, the real readyz handler queried after every transition under every map iteration order; (b) every lock-granularity interleaving of 3 real goroutines (registrations, ready-marks, status requests) under the cooperative scheduler, each outcome compared with the outcomes of all sequential merges; (c) every sequence of {ready marks, re-registration, cancel, clock tick} up to the length bound delivered to the real WaitForReady goroutine in a synctest bubble, once with a caller that polls the channel after every event and once with a caller that looks only after the last event. distinct_nontrivial = complete concurrent executions with >=1 preemption"
+	cov.Rule = "(a) breadth-first search to closure over add/ready for 3 component names on the real Health, the real readyz handler queried after every transition under every map iteration order (by an ordinary request and by requests whose context is already cancelled / past its deadline: same answer); (b) every lock-granularity interleaving of 3 real goroutines (registrations, ready-marks, status requests) under the cooperative scheduler, each outcome compared with the outcomes of all sequential merges; (c) every sequence of {ready marks, re-registration, cancel, clock tick} up to the length bound delivered to the real WaitForReady goroutine in a synctest bubble, once with a caller that polls the channel after every event and once with a caller that looks only after the last event. distinct_nontrivial = complete concurrent executions with >=1 preemption"
 	searchSequential(run, &cov)
 	searchConcurrent(run, &cov)
 	ml := 5
